@@ -46,13 +46,38 @@ void ldb_skiplist_insert(ldb_skiplist_t *list, const uint8_t *key) {
   g_ins_after_alloc = (g_alloc_calls == 1);
 }
 
-/* --- skip-list iterator: ghost cursor with at most one visible entry --- */
-const ldb_skiplist_t *g_it_list;
-const uint8_t *g_seek_target;
-int g_seek_calls;
+/* --- skip-list iterator: ghost cursor with at most one visible entry ---
+ * (the recorders live in one struct so that the contract's assigns clause has one target) */
+struct mem_get_ghost {
+  const ldb_skiplist_t *it_list;
+  const uint8_t *seek_target;
+  int seek_calls;
+  int it_positioned;
+  int cmp_calls;
+  const uint8_t *cmp_xd; size_t cmp_xn;
+  const uint8_t *cmp_yd; size_t cmp_yn;
+  const ldb_comparator_t *cmp_self;
+  int copy_calls;
+  ldb_buffer_t *copy_dst;
+  const uint8_t *copy_src; size_t copy_n;
+} G;
+#define g_it_list G.it_list
+#define g_seek_target G.seek_target
+#define g_seek_calls G.seek_calls
+#define g_it_positioned G.it_positioned
+#define g_cmp_calls G.cmp_calls
+#define g_cmp_xd G.cmp_xd
+#define g_cmp_xn G.cmp_xn
+#define g_cmp_yd G.cmp_yd
+#define g_cmp_yn G.cmp_yn
+#define g_cmp_self G.cmp_self
+#define g_copy_calls G.copy_calls
+#define g_copy_dst G.copy_dst
+#define g_copy_src G.copy_src
+#define g_copy_n G.copy_n
 int g_found;              /* seek lands on an entry (1) or past the end (0)  */
 const uint8_t *g_entry;   /* the entry it lands on                            */
-int g_it_positioned;
+int g_cmp_ret;            /* what the user comparator answers                 */
 
 void ldb_skipiter_init(ldb_skipiter_t *iter, const ldb_skiplist_t *list) {
   iter->list = list; iter->node = NULL; g_it_list = list; g_it_positioned = 0;
@@ -71,11 +96,6 @@ const uint8_t *ldb_skipiter_key(const ldb_skipiter_t *iter) {
 }
 
 /* --- user comparator: uninterpreted, records operands --- */
-int g_cmp_calls;
-const uint8_t *g_cmp_xd; size_t g_cmp_xn;
-const uint8_t *g_cmp_yd; size_t g_cmp_yn;
-int g_cmp_ret;
-const ldb_comparator_t *g_cmp_self;
 
 static int stub_user_compare(const ldb_comparator_t *c, const ldb_slice_t *x, const ldb_slice_t *y) {
   g_cmp_self = c; g_cmp_calls++;
@@ -84,24 +104,25 @@ static int stub_user_compare(const ldb_comparator_t *c, const ldb_slice_t *x, co
 }
 
 /* --- value hand-over --- */
-int g_copy_calls;
-ldb_buffer_t *g_copy_dst;
-const uint8_t *g_copy_src; size_t g_copy_n;
 
 void ldb_buffer_copy(ldb_buffer_t *z, const ldb_buffer_t *x) {
   g_copy_calls++; g_copy_dst = z; g_copy_src = x->data; g_copy_n = x->size;
 }
 
 
-/* --- memcpy: ghost-index model.  Checks the operand ranges like the real one
- * and copies exactly the byte at the arbitrary ghost index g_j (all other
- * destination bytes keep their arbitrary previous content: an
- * over-approximation that is exact for every statement about byte g_j). --- */
+/* --- memcpy: ghost model.  Checks the operand ranges like the real one,
+ * records the k-th copy as an event (dst, src, n), and copies exactly the byte
+ * at the arbitrary ghost index g_j (all other destination bytes keep their
+ * arbitrary previous content: an over-approximation that is exact for every
+ * statement about byte g_j of either copy). --- */
 size_t g_j;   /* arbitrary ghost index: "for every byte of key / value" */
 int g_cpy_calls;
+uint8_t *g_cpy_dst[2]; const uint8_t *g_cpy_src[2]; size_t g_cpy_n[2];
 void *memcpy(void *dst, const void *src, size_t n) {
   __CPROVER_assert(__CPROVER_r_ok(src, n), "memcpy: source readable for n bytes");
   __CPROVER_assert(__CPROVER_w_ok(dst, n), "memcpy: destination writable for n bytes");
+  __CPROVER_assert(g_cpy_calls < 2, "memtable_add: at most two raw copies (key, value)");
+  g_cpy_dst[g_cpy_calls] = dst; g_cpy_src[g_cpy_calls] = src; g_cpy_n[g_cpy_calls] = n;
   g_cpy_calls++;
   if (g_j < n)
     ((uint8_t *)dst)[g_j] = ((const uint8_t *)src)[g_j];
@@ -122,6 +143,13 @@ void *memcpy(void *dst, const void *src, size_t n) {
 #define POST_ADD_PROTOCOL(mt, klen, vlen) \
   (g_alloc_calls == 1 && g_ins_calls == 1 && g_ins_after_alloc && g_alloc_arena == &(mt)->arena && g_ins_list == &(mt)->table && \
    g_ins_ptr == g_alloc_ptr && g_alloc_size == ENTRY_SIZE(klen, vlen))
+/* the raw copies: key bytes go to [KHDR, KHDR+klen), value bytes to the last vlen bytes of the entry;
+   a zero-length slice may be skipped (ldb_raw_write does not call memcpy for n == 0) */
+#define COPY_IS(i, d, s, n) (g_cpy_dst[i] == (d) && g_cpy_src[i] == (s) && g_cpy_n[i] == (n))
+#define POST_ADD_COPIES(e, kd, klen, vd, vlen) \
+  (g_cpy_calls == ((klen) > 0) + ((vlen) > 0) && \
+   ((klen) == 0 || COPY_IS(0, (e) + KHDR(klen), kd, klen)) && \
+   ((vlen) == 0 || COPY_IS((klen) > 0, (e) + KHDR(klen) + (klen) + 8 + VHDR(vlen), vd, vlen)))
 /* varint32(klen+8) at offset 0 */
 #define POST_ADD_KHDR(e, klen) \
   (V_WELLFORMED(e, KHDR(klen)) && V32_VAL(e, KHDR(klen)) == (uint32_t)((klen) + 8))
@@ -139,13 +167,18 @@ __CPROVER_requires(value->size == 0 || __CPROVER_r_ok(value->data, value->size))
 __CPROVER_requires(key->size < 0xfffffff8u && value->size <= 0xffffffffu)
 __CPROVER_requires(sequence <= LDB_MAX_SEQUENCE && (type == LDB_TYPE_DELETION || type == LDB_TYPE_VALUE))
 __CPROVER_requires(g_alloc_calls == 0 && g_ins_calls == 0)
-__CPROVER_assigns(g_alloc_ptr, g_alloc_size, g_alloc_calls, g_alloc_arena, g_ins_ptr, g_ins_list, g_ins_calls, g_ins_after_alloc, g_cpy_calls)
+__CPROVER_requires(g_cpy_calls == 0)
+__CPROVER_assigns(g_alloc_ptr, g_alloc_size, g_alloc_calls, g_alloc_arena, g_ins_ptr, g_ins_list, g_ins_calls, g_ins_after_alloc,
+                  g_cpy_calls, __CPROVER_object_whole(g_cpy_dst), __CPROVER_object_whole(g_cpy_src), __CPROVER_object_whole(g_cpy_n))
 __CPROVER_ensures(POST_ADD_PROTOCOL(mt, key->size, value->size))
+__CPROVER_ensures(POST_ADD_COPIES(g_alloc_ptr, key->data, key->size, value->data, value->size))
+#ifdef MEM_ADD_BYTES
 __CPROVER_ensures(POST_ADD_KHDR(g_alloc_ptr, key->size))
 __CPROVER_ensures(g_j < key->size ==> g_alloc_ptr[KHDR(key->size) + g_j] == key->data[g_j])
 __CPROVER_ensures(POST_ADD_TAG(g_alloc_ptr, key->size, sequence, type))
 __CPROVER_ensures(POST_ADD_VHDR(g_alloc_ptr, key->size, value->size))
 __CPROVER_ensures(g_j < value->size ==> g_alloc_ptr[KHDR(key->size) + key->size + 8 + VHDR(value->size) + g_j] == value->data[g_j])
+#endif
 ;
 
 void h_memtable_add(void) {
@@ -155,10 +188,104 @@ void h_memtable_add(void) {
   uint8_t *kd = malloc(in_klen), *vd = malloc(in_vlen);
   ASSUME(kd != NULL && vd != NULL);
   ASSUME(in_klen < 0xfffffff8u && in_vlen <= 0xffffffffu);
+#ifdef MEM_ADD_MAXLEN
+  ASSUME(in_klen <= MEM_ADD_MAXLEN && in_vlen <= MEM_ADD_MAXLEN);
+#endif
   ASSUME(in_seq <= LDB_MAX_SEQUENCE && (in_type == 0 || in_type == 1));
   key.data = kd; key.size = in_klen; key.alloc = 0;
   value.data = vd; value.size = in_vlen; value.alloc = 0;
   g_alloc_calls = 0; g_cpy_calls = 0; g_ins_calls = 0; g_ins_after_alloc = 0; g_alloc_ptr = NULL; g_ins_ptr = NULL; g_j = in_j;
   ldb_memtable_add(&mt, in_seq, (ldb_valtype_t)in_type, &key, &value);
+  CANARY();
+}
+
+/* ===================================================== ldb_memtable_get == */
+/* The skip-list seek is abstracted by its contract: it positions on the first
+ * entry >= the lookup key in memtable-key order, or becomes invalid.  The
+ * harness supplies that entry (g_entry: arbitrary well-formed memtable entry)
+ * or "invalid" (g_found == 0).  What memtable_get must do with it (LevelDB
+ * MemTable::Get): same user key and type VALUE -> value handed out, return 1;
+ * DELETION -> *status = NOTFOUND, return 1; anything else -> return 0. */
+
+/* ghost description of the entry the seek lands on (tied to its bytes by the harness) */
+size_t g_e_khdr, g_e_iklen, g_e_vhdr, g_e_vlen;
+const ldb_lkey_t *g_lkey;
+ldb_memtable_t *g_mt;
+int g_status0;
+
+#define E_UKEY (g_entry + g_e_khdr)
+#define E_TAG LE64_AT(g_entry + g_e_khdr + g_e_iklen - 8)
+#define E_TYPE (E_TAG & 0xff)
+#define E_VALUE (g_entry + g_e_khdr + g_e_iklen + g_e_vhdr)
+#define L_ULEN(k) ((size_t)((k)->end - (k)->kstart) - 8)
+
+/* the lookup is one seek to the lookup key's memtable key on the memtable's own list */
+#define POST_GET_SEEK(mt, k) (g_seek_calls == 1 && g_seek_target == (k)->start && g_it_list == &(mt)->table)
+/* the user comparator (and nothing else) decides "same user key": entry's user key vs the lookup key's */
+#define POST_GET_CMP(mt, k) \
+  (g_found ? (g_cmp_calls == 1 && g_cmp_self == (mt)->comparator.user_comparator && \
+              g_cmp_xd == E_UKEY && g_cmp_xn == g_e_iklen - 8 && g_cmp_yd == (k)->kstart && g_cmp_yn == L_ULEN(k)) \
+           : g_cmp_calls == 0)
+#define GET_HIT (g_found && g_cmp_ret == 0)
+/* outcome */
+#define POST_GET_VALUE(r, value, st) \
+  (!(GET_HIT && E_TYPE == LDB_TYPE_VALUE) || \
+   ((r) == 1 && (st) == g_status0 && \
+    ((value) != NULL ? (g_copy_calls == 1 && g_copy_dst == (value) && g_copy_src == E_VALUE && g_copy_n == g_e_vlen) : g_copy_calls == 0)))
+#define POST_GET_DELETION(r, st) \
+  (!(GET_HIT && E_TYPE == LDB_TYPE_DELETION) || ((r) == 1 && (st) == LDB_NOTFOUND && g_copy_calls == 0))
+#define POST_GET_MISS(r, st) \
+  ((GET_HIT && (E_TYPE == LDB_TYPE_VALUE || E_TYPE == LDB_TYPE_DELETION)) || ((r) == 0 && (st) == g_status0 && g_copy_calls == 0))
+
+int c_memtable_get(ldb_memtable_t *mt, const ldb_lkey_t *key, ldb_buffer_t *value, int *status)
+__CPROVER_requires(__CPROVER_rw_ok(mt, sizeof(*mt)) && __CPROVER_r_ok(key, sizeof(*key)) && __CPROVER_rw_ok(status, sizeof(*status)))
+__CPROVER_requires(value == NULL || __CPROVER_rw_ok(value, sizeof(*value)))
+/* lookup key: start <= kstart <= end - 8 inside one object (ldb_lkey_init's layout) */
+__CPROVER_requires(__CPROVER_same_object(key->start, key->end) && __CPROVER_same_object(key->kstart, key->end))
+__CPROVER_requires(key->start < key->kstart && key->kstart + 8 <= key->end && __CPROVER_r_ok(key->start, key->end - key->start))
+__CPROVER_requires(mt->comparator.user_comparator != NULL && mt->comparator.user_comparator->compare == stub_user_compare)
+__CPROVER_requires(__CPROVER_r_ok(mt->comparator.user_comparator, sizeof(ldb_comparator_t)))
+/* the entry under the cursor, if any, is a well-formed memtable entry */
+__CPROVER_requires(!g_found || (g_e_khdr >= 1 && g_e_khdr <= 5 && g_e_vhdr >= 1 && g_e_vhdr <= 5 && g_e_iklen >= 8 && g_e_iklen <= 0xffffffffu && g_e_vlen <= 0xffffffffu))
+__CPROVER_requires(!g_found || __CPROVER_r_ok(g_entry, g_e_khdr + g_e_iklen + g_e_vhdr + g_e_vlen))
+__CPROVER_requires(!g_found || (V_WELLFORMED(g_entry, g_e_khdr) && V32_VAL(g_entry, g_e_khdr) == g_e_iklen))
+__CPROVER_requires(!g_found || (V_WELLFORMED(g_entry + g_e_khdr + g_e_iklen, g_e_vhdr) && V32_VAL(g_entry + g_e_khdr + g_e_iklen, g_e_vhdr) == g_e_vlen))
+__CPROVER_requires(g_seek_calls == 0 && g_cmp_calls == 0 && g_copy_calls == 0 && g_status0 == *status)
+__CPROVER_assigns(*status, G)
+__CPROVER_ensures(POST_GET_SEEK(mt, key))
+__CPROVER_ensures(POST_GET_CMP(mt, key))
+__CPROVER_ensures(POST_GET_VALUE(__CPROVER_return_value, value, *status))
+__CPROVER_ensures(POST_GET_DELETION(__CPROVER_return_value, *status))
+__CPROVER_ensures(POST_GET_MISS(__CPROVER_return_value, *status))
+;
+
+void h_memtable_get(void) {
+  struct ldb_memtable_s mt;
+  ldb_comparator_t ucmp;
+  ldb_lkey_t lkey;
+  ldb_buffer_t out;
+  int st;
+  IN_SIZE(in_lk_n); IN_SIZE(in_lk_hdr); IN_SIZE(in_e_n); IN_INT(in_found); IN_INT(in_cmp_ret); IN_INT(in_status); IN_INT(in_want_value);
+  IN_SIZE(in_e_khdr); IN_SIZE(in_e_iklen); IN_SIZE(in_e_vhdr); IN_SIZE(in_e_vlen);
+  uint8_t *lk = malloc(in_lk_n);
+  IN_BUF(entry, in_e_n); SNAP_BUF(entry, in_e_n);
+  ASSUME(lk != NULL);
+  /* lookup key layout: varint header (1..5 bytes), user key, 8-byte tag */
+  ASSUME(in_lk_hdr >= 1 && in_lk_hdr <= 5 && in_lk_n >= in_lk_hdr + 8 && in_lk_n <= 0xffffffffu);
+  lkey.start = lk; lkey.kstart = lk + in_lk_hdr; lkey.end = lk + in_lk_n;
+  /* the entry the seek lands on */
+  g_found = in_found != 0; g_entry = entry;
+  g_e_khdr = in_e_khdr; g_e_iklen = in_e_iklen; g_e_vhdr = in_e_vhdr; g_e_vlen = in_e_vlen;
+  if (g_found) {
+    ASSUME(in_e_khdr >= 1 && in_e_khdr <= 5 && in_e_vhdr >= 1 && in_e_vhdr <= 5 && in_e_iklen >= 8 && in_e_iklen <= 0xffffffffu && in_e_vlen <= 0xffffffffu);
+    ASSUME(in_e_n == in_e_khdr + in_e_iklen + in_e_vhdr + in_e_vlen);
+    /* (that the header bytes encode these lengths is the contract's precondition) */
+  }
+  ucmp.compare = stub_user_compare; ucmp.user_comparator = NULL; ucmp.name = NULL; ucmp.shortest_separator = NULL; ucmp.short_successor = NULL; ucmp.state = NULL;
+  mt.comparator.user_comparator = &ucmp; mt.comparator.compare = NULL;
+  g_cmp_ret = in_cmp_ret;
+  st = in_status; g_status0 = in_status;
+  g_seek_calls = 0; g_cmp_calls = 0; g_copy_calls = 0; g_it_positioned = 0; g_it_list = NULL;
+  ldb_memtable_get(&mt, &lkey, in_want_value ? &out : NULL, &st);
   CANARY();
 }
